@@ -41,10 +41,27 @@ fn valid(c: &C) -> bool {
     c.chunks.iter().all(|ch| { let oks: Vec<&SItem> = ch.iter().filter_map(|x| if let CI::Ok(i) = x { Some(i) } else { None }).collect(); oks.windows(2).all(|w| f(w[0], w[1]) != Ordering::Greater) })
 }
 
+/// A chunk stream that is not fused: after its (genuine) end every further `next()` yields an item that is in no
+/// chunk. `Iterator` allows that; a merger that polls a chunk again after it has ended delivers the foreign item.
+pub struct NonFused { items: std::vec::IntoIter<Result<SItem, E>>, ended: bool, fused: bool }
+impl Iterator for NonFused {
+    type Item = Result<SItem, E>;
+    fn next(&mut self) -> Option<Self::Item> {
+        match self.items.next() {
+            Some(x) => Some(x),
+            None if self.ended && !self.fused => Some(Ok((vec![7, 7, 7], b"polled-after-end".to_vec()))),
+            None => { self.ended = true; None }
+        }
+    }
+}
+
 fn exec(t: &[String]) -> Option<String> {
     let c = dec(t)?;
     let total: usize = c.chunks.iter().map(|x| x.len()).sum();
-    let chunks: Vec<Vec<Result<SItem, E>>> = c.chunks.iter().map(|ch| ch.iter().map(|x| match x { CI::Ok(i) => Ok(i.clone()), CI::Err(e) => Err(E(*e)) }).collect()).collect();
+    // (when some chunk holds an error the original polls the chunks again after delivering it; what a stream does
+    // after its first error is not part of the property, so only error-free cases get non-fused chunks)
+    let fused = mode_of(t) % 2 == 0 || c.chunks.iter().any(|ch| ch.iter().any(|x| matches!(x, CI::Err(_))));
+    let chunks: Vec<NonFused> = c.chunks.iter().map(|ch| NonFused { items: ch.iter().map(|x| match x { CI::Ok(i) => Ok(i.clone()), CI::Err(e) => Err(E(*e)) }).collect::<Vec<_>>().into_iter(), ended: false, fused }).collect();
     let mut m = BinaryHeapMerger::new(c.n, chunks, cmp_key(c.rev));
     let len = m.len();
     let mut outs: Vec<CI> = vec![];
